@@ -227,6 +227,9 @@ func (e *Engine) unop(instr *ssa.UnOp, x V) V {
 	case token.ARROW:
 		return e.chanRecv(nil, x, instr.CommaOk, instr.X.Type().Underlying().(*types.Chan).Elem())
 	case token.MUL:
+		if x.K == KSymElem {
+			return e.loadSym(deref(instr.X.Type()), x)
+		}
 		return e.load(deref(instr.X.Type()), x.ptr())
 	case token.SUB:
 		t := instr.X.Type()
@@ -866,35 +869,18 @@ func (e *Engine) decodeRuneAt(b []V, i int) (V, int) {
 			return e.fromTerm(e.ts.ZExt(t, 32), true), 1
 		}
 	}
-	// multi-byte or invalid: concretise up to 4 bytes and decode natively
-	n := len(b) - i
-	if n > 4 {
-		n = 4
-	}
-	var buf [4]byte
-	buf[0] = byte(e.concInt(b[i]))
-	// number of continuation bytes needed depends on the lead byte
-	need := 1
-	switch {
-	case buf[0] >= 0xF0:
-		need = 4
-	case buf[0] >= 0xE0:
-		need = 3
-	case buf[0] >= 0xC0:
-		need = 2
-	}
-	if need > n {
-		need = n
-	}
-	for k := 1; k < need; k++ {
-		buf[k] = byte(e.concInt(b[i+k]))
-		if buf[k]&0xC0 != 0x80 {
-			need = k + 1
-			break
+	// multi-byte or invalid: interpret the library decoder on the (symbolic) tail
+	if fn := FindFunc(e.prog, "unicode/utf8", "DecodeRuneInString"); fn != nil {
+		end := i + 4
+		if end > len(b) {
+			end = len(b)
 		}
+		r := e.call(e.top, 0, V{K: KFunc, P: fn}, []V{mkStr(b[i:end])})
+		t := r.P.([]V)
+		return t[0], int(e.concInt(t[1]))
 	}
-	r, size := utf8.DecodeRune(buf[:need])
-	return vInt(int64(r)), size
+	e.unsupported("utf8 decoding of symbolic bytes: unicode/utf8 not loaded")
+	return V{}, 0
 }
 
 // encodeRunes converts runes to a string.
@@ -917,12 +903,12 @@ func (e *Engine) encodeRunes(rs []V) V {
 			out = append(out, e.fromTerm(e.ts.Extract(t, 7, 0), false))
 			continue
 		}
-		rv := rune(int32(e.concretize(t)))
-		var buf [4]byte
-		n := utf8.EncodeRune(buf[:], rv)
-		for _, c := range buf[:n] {
-			out = append(out, vUint(uint64(c)))
+		fn := FindFunc(e.prog, "unicode/utf8", "AppendRune")
+		if fn == nil {
+			e.unsupported("utf8 encoding of a symbolic rune: unicode/utf8 not loaded")
 		}
+		enc := e.call(e.top, 0, V{K: KFunc, P: fn}, []V{{K: KSlice, P: []V(nil)}, r})
+		out = append(out, enc.slice()...)
 	}
 	return mkStr(out)
 }
@@ -1030,15 +1016,8 @@ func (e *Engine) lookup(instr *ssa.Lookup, x, idx V) V {
 			return vTuple(v, vBool(ok))
 		}
 		return v
-	case KStr:
-		s := x.P.(string)
-		i := e.index(idx, instr.Index.Type(), len(s))
-		return vUint(uint64(s[i]))
-	case KSymStr:
-		ss := x.P.(*SymStr)
-		e.inspect(ss)
-		i := e.index(idx, instr.Index.Type(), len(ss.B))
-		return ss.B[i]
+	case KStr, KSymStr:
+		return e.strIndex(x, idx, instr.Index.Type())
 	}
 	panic(fmt.Sprintf("lookup on kind %d", x.K))
 }
@@ -1139,4 +1118,21 @@ func ifaceWord(t types.Type) string {
 		return "interface {}"
 	}
 	return types.TypeString(t, nil)
+}
+
+// strIndex implements s[i] for strings (symbolic index: ite chain over the bytes).
+func (e *Engine) strIndex(x, idx V, it types.Type) V {
+	if x.K == KSymStr {
+		e.inspect(x.P.(*SymStr))
+	}
+	n := strLen(x)
+	if idx.K == KSym && n > 1 && n <= 4096 {
+		e.boundsCheck(idx.term(), n)
+		return e.selectElem(strBytes(x), idx.term(), types.Typ[types.Uint8])
+	}
+	i := e.index(idx, it, n)
+	if x.K == KStr {
+		return vUint(uint64(x.P.(string)[i]))
+	}
+	return x.P.(*SymStr).B[i]
 }
